@@ -183,6 +183,8 @@ class ConfigModel:
             it = Interp({}, {}, (), funcs, isinstance_hook, self.method_defs, self.module_defs, env_globals)
             # the command line reaches Options the way the checker's entry point does it
             kwargs = dict(cmdline)
+            if "settings" in kwargs:  # what -e / -d build: {ErrorCode member: bool}
+                kwargs["settings"] = {Obj("Error", name=k): v for k, v in kwargs["settings"].items()}
             kwargs["config_file"] = paths[0]
             prepared = it.call_def(self.prepare, [Obj("NameCheckVisitorCls", config_filename=None), kwargs], self.prepare)
             ck = prepared.get("checker") if isinstance(prepared, dict) else None
@@ -225,6 +227,8 @@ def expand_disable_all(section: Dict[str, Any]) -> Dict[str, Any]:
 
 def reference(files: Sequence[Dict[str, Any]], cmdline: Dict[str, Any], name: str, mod: Tuple[str, ...], default: Any, is_list: bool) -> Any:
     layers: List[Any] = []
+    if name in cmdline.get("settings", {}):
+        layers.append(cmdline["settings"][name])
     if name in cmdline:
         layers.append(cmdline[name])
     for f in files:
